@@ -28,6 +28,7 @@ from sim.tape import Tape
 PROP = 'C16'
 _P = {}
 POOL = []
+PREPARE_VIOLATIONS = []
 NPOOL = 10       # POOL[:NPOOL]: the entries workloads draw from; POOL[NPOOL:]: fillers (scale mode)
 GOLD = {}        # key -> dict(model, hash, results_json)
 _MEMO = {}
@@ -151,11 +152,17 @@ def prepare():
         if res is not None and name in ('bigfit', 'fitted2'):
             # a results log with more than ten entries (warnings and errors, in this order)
             import dataclasses
-            from pharmpy.workflows.log import Log
-            lg = Log()
-            for n_ in range(13):
-                lg = lg.log_warning(f'warning {n_}') if n_ % 3 else lg.log_error(f'error {n_}, "quoted"')
-            res = dataclasses.replace(res, log=lg)
+            import datetime as _dtmod
+            import pharmpy.workflows.log as plog
+            from pharmpy.workflows.log import Log, LogEntry
+            # fixed time stamps: the pool must be identical in every process (determinism)
+            entries = tuple(
+                LogEntry(category='WARNING' if n_ % 3 else 'ERROR',
+                         message=f'warning {n_}' if n_ % 3 else f'error {n_}, "quoted"',
+                         time=_dtmod.datetime(2026, 1, 1, 8, 0, n_))
+                for n_ in range(13))
+            del plog
+            res = dataclasses.replace(res, log=Log(entries))
         me = ModelEntry.create(model, modelfit_results=res)
         key = str(ModelHash(model))
         POOL.append({'idx': idx, 'name': name, 'model': model, 'me': me, 'key': key,
@@ -189,8 +196,12 @@ def prepare():
             # results are compared with what was STORED (the round trip through results.json is
             # exact on the pinned tree), not with a golden retrieve
             e['results_json'] = e['me'].modelfit_results.to_json()
-            assert me.modelfit_results.to_json() == e['results_json'], \
-                f'results of {e["name"]} do not survive a fault-free store+retrieve'
+            if me.modelfit_results is None or me.modelfit_results.to_json() != e['results_json']:
+                # not a harness problem: a verdict, reported by every run of this invocation
+                PREPARE_VIOLATIONS.append({
+                    'signature': f'{PROP}/results-not-verbatim-after-fault-free-store',
+                    'detail': f'the results of {e["name"]} (log with {len(e["me"].modelfit_results.log)} '
+                              f'entries) differ after one fault-free store_model_entry + retrieve'})
     shutil.rmtree(gdir, ignore_errors=True)
     _MEMO.clear()
     keys = [e['key'] for e in POOL[:8]]
@@ -1116,6 +1127,11 @@ def run_scale(cfg, tape, want_trace=False):
 
 def run_one(cfg, tape: Tape, want_trace=False):
     prepare()
+    if PREPARE_VIOLATIONS:
+        return {'violations': list(PREPARE_VIOLATIONS), 'harness_error': None,
+                'digest': hashlib.sha256(b'prepare').hexdigest(), 'steps': 0, 'switches': 0,
+                'outcome': 'golden-mismatch', 'stats': {}, 'nontrivial': False, 'tape': list(tape.out),
+                'states': [], 'sim_seconds': 0.0}
     if cfg.get('mode') == 'scale':
         return run_scale(cfg, tape, want_trace)
     if cfg.get('mode') == 'excpoint':
